@@ -97,6 +97,38 @@ func fontfileBuild(f Fields) *sfnt.Font {
 			}
 		}
 	}
+	// glyfsize=<N>: the encoded glyf table of a TrueType font is made exactly N bytes long (the
+	// thresholds between the short and the long loca format lie at 0xFFFF/0x10000 and the short
+	// format cannot address 0x20000): glyphs before the last are blanked until there is room, and the
+	// glyph before the last becomes a filler composite whose instruction block takes up the rest
+	if gs := f["glyfsize"]; gs != "" && gs != "-" {
+		if o, ok := font.Outlines.(*glyf.Outlines); ok && len(o.Glyphs) > 20 {
+			target := f.Int("glyfsize")
+			n := len(o.Glyphs)
+			fill := n - 2
+			o.Glyphs[fill] = nil
+			size := func() int { return len(o.Glyphs.Encode().GlyfData) }
+			for i := fill - 1; i > 10; i-- {
+				if room := target - size(); room >= 20 && room%2 == 0 {
+					break
+				}
+				o.Glyphs[i] = nil
+			}
+			room := target - size()
+			if room < 20 || room%2 != 0 {
+				panic(fmt.Sprintf("glyfsize: no room (%d)", room))
+			}
+			o.Glyphs[fill] = &glyf.Glyph{
+				Data: glyf.CompositeGlyph{
+					Components:   []glyf.GlyphComponent{{Flags: glyf.FlagArgsAreXYValues | glyf.FlagWeHaveInstructions, GlyphIndex: 3, Data: []byte{0, 0}}},
+					Instructions: make([]byte, room-18),
+				},
+			}
+			if got := size(); got != target {
+				panic(fmt.Sprintf("glyfsize: got %d, want %d", got, target))
+			}
+		}
+	}
 	if gl := f.Ints("glyphs"); len(gl) > 0 {
 		ids := make([]glyph.ID, len(gl))
 		for i, g := range gl {
@@ -158,6 +190,12 @@ func init() {
 			_, data := fontfileWrite(f)
 			return hx(data)
 		}))
+	}
+	ops["header.glyfsize"] = func(f Fields) string { // generator-side probe: can this base reach the size?
+		return guard(func() string {
+			fontfileBuild(f)
+			return "ok"
+		})
 	}
 	ops["header.xoutline"] = func(f Fields) string {
 		return canonPanic(guard(func() string {
@@ -492,6 +530,21 @@ func areaFontfile(c *Ctx) {
 		}
 		c.Stat("composite", strings.TrimLeft(comp, "0123456789:"))
 		args := fmt.Sprintf("base=%s widths=%s comp=%s glyphs=%s runes=%s", base, widths, comp, ints(glyphs), ints(runes))
+		// boundary sizes of the glyf table (complete TrueType fonts only)
+		if base != "debug" && len(glyphs) == 0 && comp == "-" && (i == 0 || r.Chance(1, 2)) {
+			gsz := Pick(r, []int{0x20000, 0x20000, 0x1FFFE, 0x20002, 0xFFFE, 0x10000, 0x10002})
+			if i == 0 {
+				gsz = 0x20000
+			}
+			if Exec(fmt.Sprintf("header.glyfsize %s glyfsize=%d", args, gsz)) == "ok" {
+				args += fmt.Sprintf(" glyfsize=%d", gsz)
+				c.Stat("glyfsize", fmt.Sprintf("%#x", gsz))
+			} else {
+				c.Stat("glyfsize", "not-reachable")
+			}
+		} else {
+			c.Stat("glyfsize", "-")
+		}
 		c.Stat("widths", widths)
 		c.Stat("base", base)
 		c.Stat("glyphs", bucket(len(glyphs)))
